@@ -108,7 +108,7 @@ impl Property for C04 {
         let Some(tc) = load_wellformed(&mut out, "c04", &text, &built.sigs) else {
             return out;
         };
-        let real = run_real(&tc, &built.sigs, &spec, &RunOpts { max_next: next_budget(&t), continue_after_error: true, ..Default::default() });
+        let real = run_real(&tc, &built.sigs, &spec, &RunOpts { max_next: next_budget(&t), fuel: fuel_for(t.facts.steps), continue_after_error: true, ..Default::default() });
         if !t.ctor_missing.is_empty() {
             out.class("ctor-refusal-due");
             out.nontrivial = true;
